@@ -301,6 +301,8 @@ class MapModel(ContainerModel):
         pb = addr(b)
         if name in ('size', 'empty', 'clear', 'begin', 'end', 'cbegin', 'cend') and not args:
             return '%s_%s(%s)' % (c, name[1:] if name in ('cbegin', 'cend') else name, pb)
+        if name in ('reserve', 'rehash'):
+            return '((void)0)'
         if name in ('find', 'count', 'lower_bound', 'upper_bound') and len(args) == 1:
             return '%s_%s(%s, %s)' % (c, name, pb, fe.expr(args[0]))
         if name == 'at' and len(args) == 1:
@@ -351,7 +353,7 @@ class SetModel(ContainerModel):
             if at.name in ('std::set', 'std::unordered_set'):
                 return fe.expr(args[0])
             if at.name == 'std::initializer_list':
-                return fe.expr(args[0])
+                return self.from_array(fe, args[0])
         if len(args) == 2:
             return '%s_from_range(%s, %s)' % (self.cname, fe.expr(args[0]), fe.expr(args[1]))
         brk('set constructor %r' % cty)
@@ -375,6 +377,8 @@ class SetModel(ContainerModel):
         pb = addr(b)
         if name in ('size', 'empty', 'clear', 'begin', 'end', 'cbegin', 'cend') and not args:
             return '%s_%s(%s)' % (c, name[1:] if name in ('cbegin', 'cend') else name, pb)
+        if name in ('reserve', 'rehash'):
+            return '((void)0)'
         if name in ('find', 'count') and len(args) == 1:
             return '%s_%s(%s, %s)' % (c, name, pb, fe.expr(args[0]))
         if name in ('insert', 'emplace') and len(args) == 1:
@@ -551,6 +555,7 @@ class Registry:
         h = self.free.get(name)
         if h is None:
             brk('%s: call of external function %s is not modelled' % (fe.f.get('name'), name))
+        args = [a for a in args if a.get('kind') != 'CXXDefaultArgExpr']
         return h(fe, args, node)
 
     def indirect_call(self, fe, callee, args, node):
@@ -659,6 +664,35 @@ def default_registry():
             brk('make_pair of %r' % t)
         return m.construct(fe, None, args, node)
     r.free['make_pair'] = h_make_pair
+
+    def h_swap(fe, args, node):
+        ct = fe.em.ctype(fe.ty(args[0]).strip_ref())
+        fname = 'xt_swap_' + re.sub(r'\W+', '_', ct)
+        if fname not in getattr(fe.em, 'swap_funcs', set()):
+            fe.em.swap_funcs = getattr(fe.em, 'swap_funcs', set()) | {fname}
+            fe.em.static_funcs.append('static inline void %s(%s *a, %s *b) { %s t = *a; *a = *b; *b = t; }' % (fname, ct, ct, ct))
+        return '%s(%s, %s)' % (fname, addr(fe.expr(args[0])), addr(fe.expr(args[1])))
+    r.free['swap'] = h_swap
+
+    def h_next(fe, args, node):
+        if len(args) == 1:
+            return '(%s + 1)' % fe.expr(args[0])
+        return '(%s + %s)' % (fe.expr(args[0]), fe.expr(args[1]))
+    r.free['next'] = h_next
+
+    def h_find(fe, args, node):
+        # std::find(first, last, value) over a pointer-iterator range of scalars
+        b, e, v = fe.expr(args[0]), fe.expr(args[1]), fe.expr(args[2])
+        et = fe.ty(args[0])
+        m = r.lookup(fe.em, et.strip_ref())
+        if m is None or not m.is_iter:
+            brk('std::find on non-iterator %r' % et)
+        fe.em.find_counter = getattr(fe.em, 'find_counter', 0) + 1
+        fname = 'xt_find%d' % fe.em.find_counter
+        fe.em.static_funcs.append('static inline %s *%s(%s *b, %s *e, %s v) { %s *r = e; for (%s *p = e; p != b; ) { p--; if (*p == v) r = p; } return r; }' % (
+            m.elem, fname, m.elem, m.elem, m.elem, m.elem, m.elem))
+        return '%s(%s, %s, %s)' % (fname, b, e, v)
+    r.free['find'] = h_find
 
     def h_max(fe, args, node):
         if not args:    # std::numeric_limits<T>::max()
